@@ -108,6 +108,9 @@ class LeafNode(TreeNode):
 
     def __eq__(self, other):
         if isinstance(other, LeafNode):
+            if isinstance(self.object, bool) != isinstance(other.object, bool):
+                # In Python True == 1 and False == 0, but a boolean is not the same datum as a number
+                return False
             return self.object == other.object
         else:
             return self.object == other
